@@ -131,6 +131,7 @@ fn handle_gen(req: &Value) -> Value {
     }
 
     let want_stages = wants(req, "tokens")
+        || wants(req, "have")
         || wants(req, "grammar")
         || wants(req, "machine")
         || wants(req, "table");
@@ -144,6 +145,28 @@ fn handle_gen(req: &Value) -> Value {
                 };
                 if st_repr != debug_repr {
                     out["stages_mismatch"] = json!(true);
+                }
+                if wants(req, "have") {
+                    let mut have: Vec<&str> = vec![];
+                    if st.tokens.is_some() {
+                        have.push("tokens");
+                    }
+                    if st.parsed {
+                        have.push("cst");
+                    }
+                    if st.validated.is_some() {
+                        have.push("validated");
+                    }
+                    if st.machine.is_some() {
+                        have.push("machine");
+                    }
+                    if st.table.is_some() {
+                        have.push("table");
+                    }
+                    if matches!(st.result, Some(Ok(_))) {
+                        have.push("rust");
+                    }
+                    out["have"] = json!(have);
                 }
                 if wants(req, "tokens") {
                     if let Some(t) = &st.tokens {
@@ -320,6 +343,8 @@ fn serve(cmd: &'static str, timeout: Duration) {
             }
         };
         writeln!(w, "{res}").unwrap();
+        // flush per response: if the code under test aborts the process, the driver must know exactly which request did it
+        w.flush().unwrap();
     }
     w.flush().unwrap();
     // abandoned (hung) workers must not keep the process alive
